@@ -109,8 +109,8 @@ Section Lits.
   Lemma RVar_small RL : forall s rbs, RVar s RL rbs -> Forall sym_ok RL -> Forall small rbs.
   Proof.
     induction RL as [|c RL IH]; intros s rbs H Hs; destruct rbs; cbn in H; try tauto. { constructor. }
-    inversion Hs; subst. destruct H as (H1 & H2). constructor; eauto.
-    apply sym_ok_le in H3. unfold small. destruct H1 as [->|(-> & _)]; consts; lia.
+    inversion Hs as [|? ? Hc Hr]; subst. destruct H as (Hb & Hv). constructor; eauto.
+    apply sym_ok_le in Hc. unfold small. destruct Hb as [->|(-> & _)]; consts; lia.
   Qed.
 
   Definition stop_head (renc0 : list N) : Prop :=
